@@ -228,7 +228,9 @@ int main(int argc, char** argv) {
     if (storm > 0) {
         Storm B; B.arrived.store(0); B.gen.store(0); B.done.store(0); B.T = 8; std::vector<std::thread> th;
         for (int i = 0; i < B.T; i++) th.emplace_back(storm_worker, &S, &B, seed * 7919 + i, storm);
-        th.emplace_back(storm_client, &S, &B);
+        // (two clients; many more runnable threads than cores was tried and is worse: evaluators preempted at the barrier no longer run their gates together)
+        int nclients = vh_arg(argc, argv, "--clients", 2);
+        for (int i = 0; i < nclients; i++) th.emplace_back(storm_client, &S, &B);
         for (size_t i = 0; i < th.size(); i++) th[i].join();
         long s2 = g_seq.fetch_add(1); std::lock_guard<std::mutex> l(g_mu); Rec rr; rr.seq = s2; rr.json = "\"e\":\"Joined\",\"upto\":" + std::to_string(g_next_tid.load()); g_log.push_back(rr);
     }
